@@ -266,7 +266,7 @@ func (t *fnTrans) assumeType(x string, ty types.Type) {
 			t.assume("(and (<= " + lo + " " + x + ") (<= " + x + " " + hi + "))")
 		}
 	case *types.Slice:
-		t.assume(fmt.Sprintf("(and (<= 0 (sl_off %s)) (<= 0 (sl_len %s)) (<= (sl_len %s) (sl_cap %s)) (<= 0 (sl_arr %s)) (<= (sl_arr %s) %s))", x, x, x, x, x, x, t.h.get(t.cur, "alloc")))
+		t.assume(fmt.Sprintf("(and (<= 0 (sl_off %s)) (<= 0 (sl_len %s)) (<= (sl_len %s) (sl_cap %s)) (<= (sl_cap %s) 140737488355328) (<= 0 (sl_arr %s)) (<= (sl_arr %s) %s))", x, x, x, x, x, x, x, t.h.get(t.cur, "alloc")))
 	case *types.Pointer, *types.Chan, *types.Map, *types.Signature:
 		t.assume(fmt.Sprintf("(and (<= 0 %s) (<= %s %s))", x, x, t.h.get(t.cur, "alloc")))
 	case *types.Interface:
